@@ -358,6 +358,9 @@ func genCase(t *rapid.T) Case {
 	if gen.Pick(t, 3, "trap") == 0 {
 		c.Ctx.Traps = uint32(apd.InvalidOperation)
 	}
+	if arith.P0Op(c.Op) && gen.Pick(t, 6, "p0") == 0 {
+		c.Ctx.P = 0 // rounding disabled (as in BaseContext): the special-value rules still apply
+	}
 	k := rapid.IntRange(0, 1000).Draw(t, "k")
 	c.CX = classes[gen.Pick(t, len(classes), "cx")]
 	c.X = rep(c.CX, k)
@@ -408,6 +411,9 @@ func check(c Case, st *core.Stats) error {
 		return nil
 	}
 	st.Class("cell:" + cell)
+	if c.Ctx.P == 0 {
+		st.Class("precision-0")
+	}
 	st.NonTrivial(e.kind + ":" + c.Op)
 	// the rules hold wherever the result is written: fresh destination, d == x, d == y
 	pats := []string{"fresh", "d=x"}
